@@ -11,7 +11,7 @@ use neurons::tensor::Tensor;
 
 pub fn meta(_ctx: &Ctx) -> Meta {
     Meta {
-        rule: "data-set sizes M in {0 (predict_batch only),1,2,3,63,64,65,127,128,129,130,200} (and 256, 257, 300, 1025 for a thin slice) (below, at, above the internal chunk size 64, not multiples of it) x heads {soft-max(3), linear(1), linear(3), sigmoid(2); soft-max(1) for a slice} x bodies {dense, conv+dense, conv+pool+dense, dense with a multiplicative skip connection, dense with a loop connection, dense with a loop and skip connections out of the looped range} x 7 objectives x tolerances {1e-6,0.1,0.5,10,-0.5 (nothing is within a negative tolerance)}; inputs pairwise distinct; targets placed clearly inside / outside the tolerance per component, arg-max unique; plus soft-max heads whose last two units are copies (tied maxima): the accuracy must be the mean of the single-sample verdicts, each 0 or 1, and lie between the certain and the possible agreements (the statement does not fix which of several maxima counts). Oracles: predict_batch(xs)[i] bit-equal predict(xs[i]) in input order, length M; predict = last activation of forward; validate loss = mean of objective.loss(predict(x),t); accuracy by the three documented rules; validate and predict_batch repeated inside pools of 1 and 2 workers. A state is one (M, head, body, objective, tolerance) configuration; transitions = predictions made; non-trivial = M >= 2".into(),
+        rule: "data-set sizes M in {0 (predict_batch only),1,2,3,63,64,65,127,128,129,130,200} (and 256, 257, 300, 1025 for a thin slice) (below, at, above the internal chunk size 64, not multiples of it) x heads {soft-max(3), linear(1), linear(3), sigmoid(2); soft-max(1) for a slice} x bodies {dense, conv+dense, conv+pool+dense, dense with a multiplicative skip connection, dense with a loop connection, dense with a loop and skip connections out of the looped range} x 7 objectives x tolerances {1e-6,0.1,0.5,10,-0.5 (nothing is within a negative tolerance)}; inputs pairwise distinct; targets placed clearly inside / outside the tolerance per component, arg-max unique; plus soft-max heads whose last two units are copies (tied maxima): the accuracy must be the mean of the single-sample verdicts, each 0 or 1, and lie between the certain and the possible agreements (the statement does not fix which of several maxima counts); for M in {3, 65}, every head, the dense and skip bodies, every objective and tolerance ALSO with the network reached through placeholder activations + set_activation (the output layer crosses the soft-max / non-soft-max boundary on the way). Oracles: predict_batch(xs)[i] bit-equal predict(xs[i]) in input order, length M; predict = last activation of forward; validate loss = mean of objective.loss(predict(x),t); accuracy by the three documented rules; validate and predict_batch repeated inside pools of 1 and 2 workers. A state is one (M, head, body, objective, tolerance) configuration; transitions = predictions made; non-trivial = M >= 2".into(),
         bound: "M <= 200; complete product".into(),
         exhaustive: true,
         assumptions: vec!["the mean is compared with tolerance (M+2)*eps*mean|term| (any summation order)".into()],
@@ -75,6 +75,18 @@ fn net_for(head: &str, body: &str) -> Net {
 }
 
 pub fn check(seed: u64, case: &Kv, rep: &mut Report) {
+    // "via=1": the network is built with placeholder activations and the real ones are installed afterwards through the
+    // public set_activation (the output layer crosses the soft-max / non-soft-max boundary on the way)
+    let via = case.opt("via").is_some();
+    crate::gen::VIA_SET_ACTIVATION.with(|v| v.set(via));
+    if via {
+        rep.count("cases_built_through_set_activation", 1);
+    }
+    check_inner(seed, case, rep);
+    crate::gen::VIA_SET_ACTIVATION.with(|v| v.set(false));
+}
+
+fn check_inner(seed: u64, case: &Kv, rep: &mut Report) {
     let m = case.usize("m");
     let head = case.get("head").to_string();
     let o = Obj::parse(case.get("obj"));
@@ -346,6 +358,18 @@ pub fn cases(thorough: bool) -> Vec<Kv> {
             for o in OBJ7 {
                 for tol in [1e-6f32, 0.5] {
                     out.push(Kv::new().put("m", m).put("head", "softmax1").put("body", body).put("obj", o.name()).put("tol", tol));
+                }
+            }
+        }
+    }
+    // the same network reached through set_activation (placeholder activations first)
+    for m in [3usize, 65] {
+        for head in ["softmax3", "linear1", "linear3", "sigmoid2", "softmax1"] {
+            for body in ["dense", "skip"] {
+                for o in OBJ7 {
+                    for tol in TOLS {
+                        out.push(Kv::new().put("m", m).put("head", head).put("body", body).put("obj", o.name()).put("tol", tol).put("via", 1));
+                    }
                 }
             }
         }
